@@ -172,16 +172,87 @@ theorem rnCtx_flatten (d : Nat) (new : α) (ls : List (Scope α)) :
     (rnCtx d new ls).flatten = ls.flatten.map (rnE d new) := by
   simp [rnCtx, List.map_flatten]
 
+/-- every entry of a capture table is a binding that is still in scope *outside* the scope the
+table belongs to (`get` records a capture only in the scopes strictly inside the defining one) -/
+def CapInv : List (Scope α) → List (Scope α) → Prop
+  | c :: cs, _ :: ls => (∀ (e : α × Nat), e ∈ c → e ∈ ls.flatten) ∧ CapInv cs ls
+  | _, _ => True
+
+theorem capInv_mem {cs ls : List (Scope α)} (h : CapInv cs ls) (hlen : cs.length = ls.length) :
+    ∀ c ∈ cs, ∀ (e : α × Nat), e ∈ c → e ∈ ls.flatten := by
+  induction cs generalizing ls with
+  | nil => intro c hc; cases hc
+  | cons c0 cs ih =>
+    cases ls with
+    | nil => simp at hlen
+    | cons l ls =>
+      obtain ⟨h0, ht⟩ := h
+      intro c hc e he
+      simp only [List.flatten_cons, List.mem_append]
+      rcases List.mem_cons.mp hc with rfl | hc'
+      · exact Or.inr (h0 e he)
+      · exact Or.inr (ih ht (by simpa using hlen) c hc' e he)
+
+theorem insertLocal_length (n : α) (l : Nat) (ls : List (Scope α)) :
+    (insertLocal n l ls).length = ls.length := by cases ls <;> simp [insertLocal]
+
+theorem mem_insertKV {n : α} {l : Nat} {s : List (α × Nat)} {e : α × Nat} (h : e ∈ insertKV n l s) :
+    e = (n, l) ∨ e ∈ s := by
+  simp only [insertKV, List.mem_cons, List.mem_filter] at h
+  rcases h with h | h
+  · exact Or.inl h
+  · exact Or.inr h.1
+
+theorem capInv_record {cs ls : List (Scope α)} {n : α} {k l0 : Nat} (h : CapInv cs ls)
+    (hlk : lookupCtx n ls = some (k, l0)) : CapInv (recordCapture n l0 k cs) ls := by
+  induction k generalizing cs ls with
+  | zero => simpa [recordCapture] using h
+  | succ k ih =>
+    cases cs with
+    | nil => simp [recordCapture, CapInv]
+    | cons c cs =>
+      cases ls with
+      | nil => simp [lookupCtx] at hlk
+      | cons l ls =>
+        obtain ⟨h0, ht⟩ := h
+        simp only [lookupCtx] at hlk
+        cases hs : lookupKV n l with
+        | some v => simp [hs] at hlk
+        | none =>
+          simp only [hs, Option.map_eq_some_iff] at hlk
+          obtain ⟨⟨k', l'⟩, hr, he⟩ := hlk
+          simp only [Prod.mk.injEq, Nat.add_right_cancel_iff] at he
+          obtain ⟨rfl, rfl⟩ := he
+          refine ⟨?_, ?_⟩
+          · intro e he
+            rcases mem_insertKV he with rfl | he'
+            · exact lookupCtx_mem hr
+            · exact h0 e he'
+          · cases cs with
+            | nil => cases k' <;> simp [recordCapture, CapInv]
+            | cons c2 cs2 => exact ih ht hr
+
+theorem capInv_define {cs ls : List (Scope α)} (n : α) (l : Nat) (h : CapInv cs ls) :
+    CapInv cs (insertLocal n l ls) := by
+  cases ls with
+  | nil => simpa [insertLocal] using h
+  | cons s rest =>
+    cases cs with
+    | nil => simp [CapInv]
+    | cons c cs => simpa [insertLocal, CapInv] using h
+
 /-- invariant of the original run -/
 structure RInv (d : Nat) (old new : α) (st : St α) : Prop where
   fresh : ∀ (e : α × Nat), e ∈ st.locals.flatten → e.1 ≠ new
   atd : ∀ (e : α × Nat), e ∈ st.locals.flatten → e.2 = d → e.1 = old
   nodup : (ctxNames st.locals).Nodup
+  capLen : st.captured.length = st.locals.length
+  cap : CapInv st.captured st.locals
 
 /-- relation between the original run and the run of the renamed module -/
 structure Rel (d : Nat) (new : α) (st st' : St α) : Prop where
   locals : st'.locals = rnCtx d new st.locals
-  capLen : st'.captured.length = st.captured.length
+  captured : st'.captured = rnCtx d new st.captured
   useDef : st'.useDef = st.useDef
   invalid : st'.invalid = st.invalid
   defLocs : st'.defLocs = st.defLocs
@@ -189,6 +260,7 @@ structure Rel (d : Nat) (new : α) (st st' : St α) : Prop where
   unbound : st'.unbound = st.unbound
   underflow : st'.underflow = st.underflow
   scopedDefs : st'.scopedDefs = st.scopedDefs.map (fun e => (e.1, List.map (rnE d new) e.2))
+  lambdaCaps : st'.lambdaCaps = st.lambdaCaps.map (fun e => (e.1, List.map (rnE d new) e.2))
 
 /-- what the statement of C15 assumes about one event, in the state in which it is executed:
 the new name is fresh; the module is accepted by scope analysis (no collision, every use
@@ -221,51 +293,79 @@ theorem insertKV_val_map {ν μ : Type} (g : ν → μ) (k : Nat) (v : ν) (m : 
   simp only [insertKV, List.map_cons, List.filter_map]
   congr 1
 
+/-- `HashMap::insert` commutes with a relabelling that maps exactly the entries named `n` to
+entries named `n'` -/
+theorem insertKV_relabel (g : α × Nat → α × Nat) (n n' : α) (l : Nat) (s : List (α × Nat))
+    (h : ∀ e ∈ s, ((g e).1 = n' ↔ e.1 = n)) (hn : g (n, l) = (n', l)) :
+    insertKV n' l (List.map g s) = List.map g (insertKV n l s) := by
+  simp only [insertKV, List.map_cons, hn, List.filter_map]
+  congr 2
+  apply List.filter_congr
+  intro e he
+  have := h e he
+  by_cases h1 : e.1 = n
+  · simp [h1, this.mpr h1]
+  · have h2 : ¬ (g e).1 = n' := fun h' => h1 (this.mp h')
+    simp [h1, h2]
+
+theorem recordCapture_relabel (g : α × Nat → α × Nat) (n n' : α) (l k : Nat) (cs : List (Scope α))
+    (h : ∀ c ∈ cs, ∀ e ∈ c, ((g e).1 = n' ↔ e.1 = n)) (hn : g (n, l) = (n', l)) :
+    recordCapture n' l k (cs.map (List.map g)) = (recordCapture n l k cs).map (List.map g) := by
+  induction k generalizing cs with
+  | zero => simp [recordCapture]
+  | succ k ih =>
+    cases cs with
+    | nil => simp [recordCapture]
+    | cons c cs =>
+      simp only [List.map_cons, recordCapture]
+      rw [insertKV_relabel g n n' l c (h c (by simp)) hn, ih cs (fun c' hc' => h c' (by simp [hc']))]
+
 theorem step_sim (S : List Nat) (d : Nat) (old new : α) (st st' : St α) (ev : Ev α)
     (hi : RInv d old new st) (hr : Rel d new st st') (hok : evOK S d old new st ev) :
     Rel d new (step st ev) (step st' (renameEv S new ev)) ∧ RInv d old new (step st ev) := by
   obtain ⟨locals', captured', unbound', invalid', useDef', defLocs', scopedDefs', lambdaCaps', errors', underflow'⟩ := st'
-  obtain ⟨h1, h2, h3, h4, h5, h6, h7, h8, h9⟩ := hr
-  simp only at h1 h2 h3 h4 h5 h6 h7 h8 h9
-  subst h1 h3 h4 h5 h6 h7 h8 h9
+  obtain ⟨h1, h2, h3, h4, h5, h6, h7, h8, h9, h10⟩ := hr
+  simp only at h1 h2 h3 h4 h5 h6 h7 h8 h9 h10
+  subst h1 h2 h3 h4 h5 h6 h7 h8 h9 h10
   cases ev with
   | push =>
-    refine ⟨⟨by simp [step, renameEv, rnCtx], by simp [step, renameEv, h2], rfl, rfl, rfl, rfl, rfl, rfl, rfl⟩, ?_⟩
-    exact ⟨by simpa [step] using hi.fresh, by simpa [step] using hi.atd, by simpa [step, ctxNames] using hi.nodup⟩
+    refine ⟨⟨by simp [step, renameEv, rnCtx], by simp [step, renameEv, rnCtx], rfl, rfl, rfl, rfl, rfl, rfl, rfl, rfl⟩, ?_⟩
+    refine ⟨by simpa [step] using hi.fresh, by simpa [step] using hi.atd,
+      by simpa [step, ctxNames] using hi.nodup, by simp [step, hi.capLen], ?_⟩
+    simp only [step, CapInv]
+    exact ⟨by simp, hi.cap⟩
   | pop k loc =>
     obtain ⟨locals, captured, unbound, invalid, useDef, defLocs, scopedDefs, lambdaCaps, errors, underflow⟩ := st
-    obtain ⟨hfresh, hatd, hnodup⟩ := hi
-    simp only at hfresh hatd hnodup h2
+    obtain ⟨hfresh, hatd, hnodup, hcl, hcap⟩ := hi
+    simp only at hfresh hatd hnodup hcl hcap
     simp only [step, renameEv]
     cases locals with
     | nil =>
-      exact ⟨⟨by simp [rnCtx], h2, rfl, rfl, rfl, rfl, rfl, rfl, rfl⟩, ⟨hfresh, hatd, hnodup⟩⟩
+      exact ⟨⟨by simp [rnCtx], rfl, rfl, rfl, rfl, rfl, rfl, rfl, rfl, rfl⟩, ⟨hfresh, hatd, hnodup, hcl, hcap⟩⟩
     | cons l ls =>
       cases captured with
-      | nil =>
-        have : captured' = [] := by simpa using h2
-        subst this
-        exact ⟨⟨by simp [rnCtx], rfl, rfl, rfl, rfl, rfl, rfl, rfl, rfl⟩, ⟨hfresh, hatd, hnodup⟩⟩
+      | nil => simp at hcl
       | cons c cs =>
-        cases captured' with
-        | nil => simp at h2
-        | cons c' cs' =>
-          have hlen : cs'.length = cs.length := by simpa using h2
-          have hfl : ∀ e, e ∈ ls.flatten → e ∈ (l :: ls).flatten := by
-            intro e he; simp only [List.flatten_cons, List.mem_append]; exact Or.inr he
-          have hnd : (ctxNames ls).Nodup := by
-            simp only [ctxNames, names, List.flatten_cons, List.map_append] at hnodup ⊢
-            exact (List.nodup_append.mp hnodup).2.1
-          simp only [rnCtx, List.map_cons]
-          rcases k with _ | _ | _
-          · exact ⟨⟨by simp [rnCtx], hlen, rfl, rfl, rfl, rfl, rfl, rfl, rfl⟩,
-              ⟨fun e he => hfresh e (hfl e he), fun e he => hatd e (hfl e he), hnd⟩⟩
-          · exact ⟨⟨by simp [rnCtx], hlen, rfl, rfl, rfl, rfl, rfl, rfl,
-              by simp [insertKV_val_map (List.map (rnE d new))]⟩,
-              ⟨fun e he => hfresh e (hfl e he), fun e he => hatd e (hfl e he), hnd⟩⟩
-          · exact ⟨⟨by simp [rnCtx], hlen, rfl, rfl, rfl, rfl, rfl, rfl,
-              by simp [insertKV_val_map (List.map (rnE d new))]⟩,
-              ⟨fun e he => hfresh e (hfl e he), fun e he => hatd e (hfl e he), hnd⟩⟩
+        have hfl : ∀ e, e ∈ ls.flatten → e ∈ (l :: ls).flatten := by
+          intro e he; simp only [List.flatten_cons, List.mem_append]; exact Or.inr he
+        have hnd : (ctxNames ls).Nodup := by
+          simp only [ctxNames, names, List.flatten_cons, List.map_append] at hnodup ⊢
+          exact (List.nodup_append.mp hnodup).2.1
+        have hf' : ∀ (e : α × Nat), e ∈ ls.flatten → e.1 ≠ new := fun e he => hfresh e (hfl e he)
+        have ha' : ∀ (e : α × Nat), e ∈ ls.flatten → e.2 = d → e.1 = old := fun e he => hatd e (hfl e he)
+        have hcl' : cs.length = ls.length := by simpa using hcl
+        have hcap' : CapInv cs ls := hcap.2
+        simp only [rnCtx, List.map_cons]
+        rcases k with _ | _ | _
+        · exact ⟨⟨by simp [rnCtx], by simp [rnCtx], rfl, rfl, rfl, rfl, rfl, rfl, rfl, rfl⟩,
+            ⟨hf', ha', hnd, hcl', hcap'⟩⟩
+        · exact ⟨⟨by simp [rnCtx], by simp [rnCtx], rfl, rfl, rfl, rfl, rfl, rfl,
+            by simp [insertKV_val_map (List.map (rnE d new))], rfl⟩,
+            ⟨hf', ha', hnd, hcl', hcap'⟩⟩
+        · exact ⟨⟨by simp [rnCtx], by simp [rnCtx], rfl, rfl, rfl, rfl, rfl, rfl,
+            by simp [insertKV_val_map (List.map (rnE d new))],
+            by simp [insertKV_val_map (List.map (rnE d new))]⟩,
+            ⟨hf', ha', hnd, hcl', hcap'⟩⟩
   | define n l =>
     obtain ⟨hn, hS, hd, hp⟩ := hok
     have hnot : n ∉ ctxNames st.locals := (previousDef_none_iff n st.locals).mp hp
@@ -311,20 +411,24 @@ theorem step_sim (S : List Nat) (d : Nat) (old new : α) (st st' : St α) (ev : 
         simp only [rnCtx, List.map_cons, insertLocal, insertKV_fresh l hs, insertKV_fresh l hs', hrn]
     refine ⟨?_, ?_⟩
     · simp only [step, renameEv, defineId, hp, hp', hins]
-      exact ⟨rfl, h2, rfl, rfl, rfl, rfl, rfl, rfl, rfl⟩
+      exact ⟨rfl, rfl, rfl, rfl, rfl, rfl, rfl, rfl, rfl, rfl⟩
     · simp only [step, defineId, hp]
       cases hl : st.locals with
       | nil =>
+        have hc0 : st.captured = [] := by
+          have := hi.capLen; rw [hl] at this; simpa using this
         simp only [insertLocal]
-        exact ⟨by simp, by simp, by simp [ctxNames, names]⟩
+        exact ⟨by simp, by simp, by simp [ctxNames, names], by simp [hc0], by simp [hc0, CapInv]⟩
       | cons s rest =>
         have hs : n ∉ names s := fun h' => hnot (by
           rw [hl]; simp only [ctxNames, names, List.flatten_cons, List.map_append, List.mem_append]
           exact Or.inl h')
         have hfl : (insertKV n l s :: rest).flatten = (n, l) :: st.locals.flatten := by
           rw [hl, insertKV_fresh l hs]; simp
-        simp only [insertLocal]
-        refine ⟨?_, ?_, ?_⟩
+        have hcapd := capInv_define n l hi.cap
+        rw [hl] at hcapd
+        simp only [insertLocal] at hcapd ⊢
+        refine ⟨?_, ?_, ?_, by simpa [hl] using hi.capLen, hcapd⟩
         · intro e he
           rw [hfl] at he
           rcases List.mem_cons.mp he with rfl | h'
@@ -345,9 +449,9 @@ theorem step_sim (S : List Nat) (d : Nat) (old new : α) (st st' : St α) (ev : 
       obtain ⟨k, l0⟩ := r
       simp only [hlk] at hres
       have hmem : (n, l0) ∈ st.locals.flatten := lookupCtx_mem hlk
-      have hlk' : lookupCtx (if l ∈ S then new else n) (rnCtx d new st.locals) = some (k, l0) := by
-        rw [← hlk]
-        apply lookupCtx_relabel (rnE d new) (fun e => rfl)
+      -- the relabelling maps exactly the entries named `n` to entries named `n'`
+      have hcond : ∀ (e : α × Nat), e ∈ st.locals.flatten →
+          ((rnE d new e).1 = (if l ∈ S then new else n) ↔ e.1 = n) := by
         intro e he
         have hfr := hi.fresh e he
         by_cases hl : l ∈ S
@@ -374,12 +478,28 @@ theorem step_sim (S : List Nat) (d : Nat) (old new : α) (st st' : St α) (ev : 
               have := names_unique hi.nodup (this ▸ he) hmem
               exact absurd (this.symm.trans hed) hl0
           · simp [hed]
+      have hlk' : lookupCtx (if l ∈ S then new else n) (rnCtx d new st.locals) = some (k, l0) := by
+        rw [← hlk]
+        exact lookupCtx_relabel (rnE d new) (fun e => rfl) n _ st.locals hcond
+      have hrn : rnE d new (n, l0) = (if l ∈ S then new else n, l0) := by
+        by_cases hl : l ∈ S
+        · simp [rnE, hl, hres.mp hl]
+        · have : ¬ l0 = d := fun h' => hl (hres.mpr h')
+          simp [rnE, hl, this]
+      have hrec : recordCapture (if l ∈ S then new else n) l0 k (rnCtx d new st.captured)
+          = rnCtx d new (recordCapture n l0 k st.captured) :=
+        recordCapture_relabel (rnE d new) n _ l0 k st.captured
+          (fun c hc e he => hcond e (capInv_mem hi.cap hi.capLen c hc e he)) hrn
       refine ⟨?_, ?_⟩
       · simp only [step, renameEv, useId, hlk, hlk']
-        refine ⟨rfl, ?_, rfl, rfl, rfl, rfl, rfl, rfl, rfl⟩
-        cases ft <;> simp [recordCapture_length, h2]
+        refine ⟨rfl, ?_, rfl, rfl, rfl, rfl, rfl, rfl, rfl, rfl⟩
+        cases ft <;> simp [hrec]
       · simp only [step, useId, hlk]
-        exact ⟨hi.fresh, hi.atd, hi.nodup⟩
+        refine ⟨hi.fresh, hi.atd, hi.nodup, ?_, ?_⟩
+        · cases ft <;> simp [recordCapture_length, hi.capLen]
+        · cases ft
+          · simpa using capInv_record hi.cap hlk
+          · simpa using hi.cap
 
 theorem run_sim (S : List Nat) (d : Nat) (old new : α) (evs : List (Ev α)) (st st' : St α)
     (hi : RInv d old new st) (hr : Rel d new st st') (hok : Admissible S d old new evs st) :
@@ -466,10 +586,56 @@ theorem usesList_renameAt (S : List Nat) (new : α) : ∀ ks : List (Node α),
     simp_all [usesList, Node.renameAtList, renameAt]
 end
 
+/-! ### member level: parameters, type parameters, annotations, body -/
+
+def rnName (S : List Nat) (new : α) (n : α) (l : Nat) : α := if l ∈ S then new else n
+
+def TParam.renameAt (S : List Nat) (new : α) (tp : TParam α) : TParam α :=
+  { name := rnName S new tp.name tp.loc, loc := tp.loc,
+    bound := tp.bound.map fun b => (rnName S new b.1 b.2.1, b.2.1, Node.renameAtList S new b.2.2) }
+
+/-- `apply_renaming` on a member (`variable_definition.rs:400-450`): parameter identifiers at a
+location of `S` (via `mod_def_id`), and the body. -/
+def Member.renameAt (S : List Nat) (new : α) (m : Member α) : Member α :=
+  { m with
+    tparams := m.tparams.map (TParam.renameAt S new)
+    params := m.params.map fun p => (rnName S new p.1 p.2.1, p.2.1, Node.renameAt S new p.2.2)
+    ret := Node.renameAt S new m.ret
+    body := m.body.map (Node.renameAt S new) }
+
+theorem renameAt_append (S : List Nat) (new : α) (a b : List (Ev α)) :
+    renameAt S new (a ++ b) = renameAt S new a ++ renameAt S new b := by
+  simp [renameAt]
+
+theorem visitTParams_renameAt (S : List Nat) (new : α) (tps : List (TParam α)) :
+    visitTParams (tps.map (TParam.renameAt S new)) = renameAt S new (visitTParams tps) := by
+  simp only [visitTParams, renameAt, List.map_append, List.map_map, List.flatMap_map, List.map_flatMap]
+  congr 1
+  · congr 1
+    · apply flatMap_congr'
+      intro tp _
+      cases h : tp.bound <;> simp [TParam.renameAt, h, renameEv, rnName]
+  · apply flatMap_congr'
+    intro tp _
+    cases h : tp.bound with
+    | none => simp [TParam.renameAt, h]
+    | some b =>
+      have := visitList_renameAt S new b.2.2
+      simp [TParam.renameAt, h, this, renameAt]
+
+/-- **member-level renamer = event renamer** (parameters included) -/
+theorem visitMember_renameAt (S : List Nat) (new : α) (m : Member α) :
+    visitMember (Member.renameAt S new m) = renameAt S new (visitMember m) := by
+  simp only [visitMember, Member.renameAt, visitTParams_renameAt, renameAt_append, List.flatMap_map,
+    List.map_map, visit_renameAt]
+  cases hb : m.body with
+  | none => simp [renameAt, renameEv, Function.comp_def, rnName, List.map_flatMap]
+  | some b => simp [renameAt, renameEv, visit_renameAt S new b, Function.comp_def, rnName, List.map_flatMap]
+
 theorem rinv_init (d : Nat) (old new : α) : RInv d old new (init : St α) :=
-  ⟨by simp [init], by simp [init], by simp [init, ctxNames, names]⟩
+  ⟨by simp [init], by simp [init], by simp [init, ctxNames, names], by simp [init], by simp [init, CapInv]⟩
 
 theorem rel_init (d : Nat) (new : α) : Rel d new (init : St α) init :=
-  ⟨by simp [init, rnCtx], rfl, rfl, rfl, rfl, rfl, rfl, rfl, by simp [init]⟩
+  ⟨by simp [init, rnCtx], by simp [init, rnCtx], rfl, rfl, rfl, rfl, rfl, rfl, by simp [init], by simp [init]⟩
 
 end SamVerif.Scope
